@@ -12,7 +12,7 @@ import itertools
 import z3
 
 from . import sigma
-from .sv import (F_ARCCOS, F_ATAN2, F_COS, F_EXP, F_LOG, F_POW, F_ROUND6, F_ROUND8, F_SIN, F_SQRT, PI,
+from .sv import (F_RINT, F_ARCCOS, F_ATAN2, F_COS, F_EXP, F_LOG, F_POW, F_ROUND6, F_ROUND8, F_SIN, F_SQRT, PI,
                  fresh_name)
 
 RV = z3.RealVal
@@ -81,6 +81,12 @@ def instances(formulas, opts=None):
         for a, b in itertools.combinations(sq, 2):
             # monotone / injective
             out.append(z3.Implies(z3.And(a.arg(0) >= 0, b.arg(0) >= 0, a.arg(0) == b.arg(0)), a == b))
+    for zi in apps.get("rintz", {}).values():
+        # round half to even (numpy.rint, python round): the unique integer within 1/2, even at ties
+        x = zi.arg(0)
+        e = z3.ToReal(zi)
+        half = RV("1/2")
+        out.append(z3.And(x - e <= half, e - x <= half, z3.Implies(z3.Or(x - e == half, e - x == half), zi % 2 == 0)))
     for e in apps.get("exp", {}).values():
         out.append(e > 0)
     ex = list(apps.get("exp", {}).values())
